@@ -720,8 +720,8 @@ macro_rules
 
 /-- **the main scan is total** -/
 theorem wp_scanRegex (s : PS) (hs : s.pos ≤ E.pat.length) (hu : s.unit = none)
-    (hl : s.optionsStack.length = s.stack.length) :
-    wp (scanRegex E (E.pat.length + 1)) (fun _ _ => True) (fun _ => True) s := by
+    (hl : s.optionsStack.length = s.stack.length) (n : Nat) (hn : E.pat.length - s.pos < n) :
+    wp (scanRegex E n) (fun _ _ => True) (fun _ => True) s := by
   unfold scanRegex
   simp only [wp_bind, wp_opts, startGroup, wp_modify]
   refine wp_iter E _ (fun _ s' => TurnInv E s') _ _ ?_ _ _ _ (by dsimp only; omega) ⟨hs, hu, hl⟩
@@ -735,17 +735,19 @@ theorem wp_scanRegex (s : PS) (hs : s.pos ≤ E.pat.length) (hu : s.unit = none)
     | inl b' => exact h
     | inr _ => fin_tac
 
-/-- **`Parse` is total**: a tree or an `ErrorCode`, never a fault, never out of fuel -/
-theorem parse_total_aux : (∃ t, parse E = .ok t) ∨ (∃ c, parse E = .error c) := by
-  unfold parse parseFuel
-  have h1 := wp_countCaptures E { options := E.opts } (Nat.zero_le _)
+/-- **`Parse` is total** with any fuel above the length of the pattern: a tree or an `ErrorCode`,
+    never a fault, never out of fuel -/
+theorem parseFuel_total (n : Nat) (hn : E.pat.length < n) :
+    (∃ t, parseFuel E n = .ok t) ∨ (∃ c, parseFuel E n = .error c) := by
+  unfold parseFuel
+  have h1 := wp_countCaptures E { options := E.opts } (Nat.zero_le _) n (by dsimp only; omega)
   rw [wp_eq_resOk] at h1
-  cases hcc : countCaptures E (E.pat.length + 1) { options := E.opts } with
+  cases hcc : countCaptures E n { options := E.opts } with
   | ok t s' =>
     simp only []
-    have h2 := wp_scanRegex E (resetState E t) (Nat.zero_le _) rfl rfl
+    have h2 := wp_scanRegex E (resetState E t) (Nat.zero_le _) rfl rfl n (by simp only [resetState]; omega)
     rw [wp_eq_resOk] at h2
-    cases hsr : scanRegex E (E.pat.length + 1) (resetState E t) with
+    cases hsr : scanRegex E n (resetState E t) with
     | ok root s'' => exact Or.inl ⟨_, rfl⟩
     | err c s'' => exact Or.inr ⟨_, rfl⟩
     | fault f => rw [hsr] at h2; exact h2.elim
